@@ -29,6 +29,11 @@ def generate(seed, tier):
     S = core.Streams(seed)
     tight = S['swarm'].random() < 0.7
     ops, info = econgen.gen_program(seed, tight=tight, on_grid=S['swarm'].random() < 0.7)
+    if S['swarm'].random() < 0.4:
+        # not only the generator's canonical declaration order: a seeded dependency-respecting order
+        from . import c08
+        order = c08.linear_extension(ops, S['schedule'])
+        ops = [ops[i] for i in order]
     return {'kind': 'ECON', 'family': info['family'], 'ops': ops}
 
 
